@@ -12,6 +12,43 @@ TEXTS = {
                 "Parser and wrapper are universally quantified, not modelled. Trusted: Lean kernel, translator, harness.",
         "technique": "Lean 4 proof over executable model + differential correspondence + per-case contract evaluation",
     },
+    "C07": {
+        "text": "Lean theorem verbatim_emitted: the reconstructor model emits every run of ignored tokens byte for byte for every counter "
+                "assignment (under a decidable no-safety-net side condition, tallied per case); ignored tokens cannot be rewritten. The "
+                "toggle recogniser, marking, void step and reconstructor models are tied to the code by differential execution; a "
+                "substring-equality oracle runs on every case, including a family that places toggle comments between arbitrary tokens.",
+        "design_ref": "DESIGN.md section 5 (C07)",
+        "note": "Asm bodies rely on the real parser's AsmInstruction lines (taken from the implementation in every case). Known finding F4 "
+                "(lone-CR line comment inside a region). Trusted: Lean kernel, translator, harness, hand-written model.",
+        "technique": "Lean 4 proof over executable model + differential correspondence + direct oracle",
+    },
+    "C08": {
+        "text": "Lean theorems on the reconstructor for every token list with canonical counters: gap shape (none/one space, or 1-2 breaks "
+                "plus whole indentation units), whole-unit indentation, end-of-file newline, spacing rule values <= 1. Exact models of the "
+                "rules feeding the counters are differentially checked; a line-scanner oracle checks the real output of every case.",
+        "design_ref": "DESIGN.md section 5 (C08)",
+        "note": "The canonical-counters premise is the wrapper contract (tallied per case, not proved for the search); known findings F5, "
+                "F6, F13, F14, F15 are recorded classes. Trusted: Lean kernel, translator, harness, model.",
+        "technique": "Lean 4 proof over executable model + differential correspondence + direct oracle",
+    },
+    "C09": {
+        "text": "Lean theorems: for fixed counters the crlf rendering equals the lf rendering with terminators substituted; every emitted "
+                "break is the configured newline; whitespace counters ignore CR. The lf/crlf and LF/CRLF-input relations are also checked "
+                "as oracles on the real formatter for every case.",
+        "design_ref": "DESIGN.md section 5 (C09)",
+        "note": "Independence of the wrapper's decisions from the newline string is an oracle-checked contract, not a theorem. Trusted: "
+                "Lean kernel, translator, harness, model.",
+        "technique": "Lean 4 proof over executable model + differential correspondence + metamorphic oracle",
+    },
+    "C10": {
+        "text": "Lean theorems: tab expansion of the use_tabs rendering equals the spaces rendering for fixed counters (ci*tw<=255); "
+                "indentation = (levels + ci*continuations) units; saturation point characterised. Pair oracle on the real formatter with "
+                "unconstrained width for every well-formed case.",
+        "design_ref": "DESIGN.md section 5 (C10)",
+        "note": "Decision agreement across the two settings is oracle-checked. Known finding F6 (u8 saturation). Trusted: Lean kernel, "
+                "translator, harness, model.",
+        "technique": "Lean 4 proof over executable model + differential correspondence + metamorphic oracle",
+    },
     "C13": {
         "text": "Machine-checked Lean 4 theorems on an exact model of the lexer: losslessness, single last end-of-file token, blank-only "
                 "leading whitespace, non-blank token starts, AVX2 identifier routine = scalar routine for every input, keyword lookup = "
